@@ -35,12 +35,61 @@ CHECKS = {
         technique="contract-based deductive verification (ast->z3 VCs, loop invariants, lemma VCs for nonlinear arithmetic and finite sums); bounded run-time cross-check",
         design_ref="DESIGN 3 C10",
     ),
+    "C31": dict(
+        level="exploration",
+        text="BOUNDED stand-in (never counted as proved): the real Spec.evaluate_mapping is run on generated single-Einsum specs with one or two Tolls between memories (every loop skeleton of a small exhaustive core, per-tensor directions up / down / up_and_down given as strings or per-tensor dicts, five ways of giving values-per-action, tensors bypassing levels) and the Toll's read actions are compared with the number of values crossing it in the configured direction(s), computed in the oracle by walking the loop nest with explicit coordinate sets, divided by values-per-action; they must be zero for tensors / directions not configured; Toll write actions, occupancy and reservation columns and the buffet statistics max_occupancy / total_write_actions must be zero and Memory usage must equal that of the same mapping without the Toll. evaluate_mapping must refuse hand-written two-Einsum mappings whose first holder of the shared tensor is a Toll, and in every mapping returned by the real map_workload_to_arch on nine small Toll architectures no Toll may be the outermost holder of a shared tensor. analyze_storage / run_model compute these numbers through sympy expressions over a mapping tree; contracts for analyze_toll and the outermost-holder loop are designed (DESIGN 3 C31) but not built.",
+        note="Bound: matmul / matvec / outer product with rank-variable bounds 1..4 (thorough 1..5), three architectures, <= 2 extra tile levels per variable; exhaustive core matmul 2x2x2 on Main/G1/Buf with loops above / below the Toll as ordered variable lists of length <= 1 (thorough <= 2), twelve rounds per skeleton (156 / 444 cases); 7 hand-written holder cases; 2 / 24 mapper calls on 2-3 Einsum chains with bounds <= 3 / 4. Excluded (stated in the oracle's rule): read counts where an uneven tile sits under another loop over the same variable (the model approximates iteration counts there for every holder, not only Tolls); no spatial fan-out, no sliding-window projections.",
+        technique="bounded run-time contract check of the real model and mapper against an explicit walk of the loop nest",
+        design_ref="DESIGN 3 C31, 8.6",
+    ),
     "C32": dict(
         level="proof",
         text="Deductive: parallel() (list, list+generator_unordered and dict modes, sequential and joblib branches), its nested generator yield_results, the tagging closure f and _dict_job are symbolically executed from the real source; joblib is an assumed contract in which the completion order is a universally quantified bijection pi (any order, any worker count), so result[i] == run(jobs[i]) and dict[k] == run(jobs[k]) are proved for every job list and every completion order. A bounded cross-check runs the real parallel() with sleeping jobs over lengths x worker counts.",
         note=_TB + "joblib Parallel/delayed assumed (each job run exactly once; order = some bijection); function-value dispatch (calling the value of a def runs that def); generators modelled by their yielded sequence; pbar=None (progress bar outside the property); dict key order not claimed.",
         technique="contract-based deductive verification (ast->z3 VCs, loop invariant over a symbolic permutation), bounded run-time cross-check",
         design_ref="DESIGN 3 C32",
+    ),
+    "C11": dict(
+        level="exploration",
+        text="BOUNDED stand-in (never counted as proved): the real fast_pareto_mask (distinct True/False) and makepareto_numpy are run on an enumerated core of small matrices with every goal vector plus seeded random matrices (ties in float32 row sums, +inf, values that collide in float32, integers around 2**24 and 2**31, several diff groups incl. the float32 pair-packed path, constant columns, anti-chains longer than two 16-row blocks, duplicates, n = 0/1/2) and the mask is compared with the O(n^2) definition written in the oracle (prime-factor expansion by trial division, exact comparison, first duplicate kept). The filter core _sfs_bnl_core is numba-compiled numeric code with float32 row sums and a stable argsort; contracts for it are designed (DESIGN 3 C11) but not built, so nothing is claimed as proved. Three genuine defects found were repaired in /repo (fix: f9fa95e 2-D sweep sentinel, 338bbc5 in-place negation, 5d27380 empty table); two are recorded as known findings F2 (float32 sum ties) and F3 (float32 narrowing) with witnesses replayed on every run.",
+        note="Bound: enumerated core d=1 n<=4 over {0,1,2}; d=2 n<=3 over {0,1,2}; d=3 n<=3 over {0,1}, every goal vector from {min,max,diff}^d; infinite values d=2 over {0,1,inf}, d=3 over {0,inf}; prime-factor goals over {1,2,3,4,6,12}; 1500 (quick) / 30000 (thorough) seeded random matrices of <= 300 (400) rows x <= 8 columns. Assumes no NaN, no -0.0, |integers| <= 2**53, prime-factor columns hold integers >= 1. The real code runs in a child interpreter (a bad index inside numba code can kill the process).",
+        technique="bounded run-time contract check of the real functions against the definition (enumerated core + seeded adversarial random matrices)",
+        design_ref="DESIGN 3 C11, 8.6",
+    ),
+    "C12": dict(
+        level="exploration",
+        text="BOUNDED stand-in (never counted as proved): the real pareto.makepareto and PmappingDataframe construction / make_pareto are run on generated pandas tables whose columns carry their class by construction (objective / reservation / fused-loop / n_iterations / split / ignored and look-alike names). Zero tolerance: the kept rows must equal the O(n^2) definition (not dominated on objective+reservation columns by a row with identical fused-loop tile shapes; first of equal rows kept), the frame returned must be the input restricted to them, the input unmodified. With tolerances: every dropped row must be dominated within (1+t) on objectives and within the stated absolute/relative slack on reservations by a kept row of the same group. Adding / removing constant columns must not change the kept rows. The code under test is pandas column algebra over names (multi_round, groupby-free masks, concat); pandas is outside the VC generator.",
+        note="Bound: directed 2-3 row tables per convention name; exhaustive zero-tolerance cores over <= 3 (quick) / 4 (thorough) rows with values in {1,2}; exhaustive 2-row tolerance core over {1, 1.03125, 1.5, 2.5}^2 under 6 / 26 tolerance triples; 1400 / 50000 seeded random tables of 0-150 rows. Values are exactly float32-representable with exact row sums and |v| < 2**14 so that the float32 findings of C11 (F2, F3) stay out of C12.",
+        technique="bounded run-time contract check of the real functions against the definition (enumerated cores + seeded random tables)",
+        design_ref="DESIGN 3 C12, 8.6",
+    ),
+    "C15": dict(
+        level="exploration",
+        text="BOUNDED stand-in (never counted as proved): real PmappingGroup / PmappingDataframe / Compatibility objects are compressed with the real compress_einsum2pmappings, a join is simulated in the oracle by selecting rows of the compressed tables (copying their <einsum><SEP>compressed_index values), and the real decompress_pmappings must give one result row per joined row carrying exactly the non-joining columns of the pmapping rows it was built from (every other cell missing); compressed rows must equal the originals restricted to joining columns and index values must be pairwise different across the groups of an Einsum. The functions are pandas operations (reset_index, column selection, merge on index, concat) that the VC generator cannot execute.",
+        note="Bound: exhaustive core (Einsum A with 1-3 groups of 0..2 (thorough 0..3) rows with different column sets, every non-empty subset of its rows ascending or descending; Einsum B one 2-row group), group sizes [1,300,2] (thorough also [40000,3,30000]) around positions 127/128, 255/256, 32767/32768, and 200 / 2000 seeded random cases (1-4 Einsums, 1-4 groups, 0-5 rows, prefix-related names, 6 index styles, 0-9 non-joining columns of 6 dtypes, 1-4 selections each with repeats / boundaries / reversed order). Not in the family: an empty joined table, an Einsum with no rows, NaN cells, bool columns.",
+        technique="bounded run-time contract check of the real functions on real pmapping tables with a simulated join",
+        design_ref="DESIGN 3 C15, 8.6",
+    ),
+    "C25": dict(
+        level="exploration",
+        text="BOUNDED stand-in (never counted as proved): for every Compute of every generated architecture tree the real Spec._get_flattened_architecture (all computes, by name, by object), Arch._flatten on the evaluated and the raw Arch, and _flatten of every nested Hierarchical / Fork containing the compute must return, as (class, name) sequences, exactly the required path: two independent statements of it written in the oracle (a structural recursion, and 'non-Compute leaves before the compute in preorder whose enclosing Forks all contain the compute, then the compute') are cross-checked against each other on every input before the real code is consulted. Contracts for Hierarchical._flatten (recursion over a heap tree with a recursively defined inclusion predicate) are designed (DESIGN 3 C25) but not built.",
+        note="Bound: trees of depth <= 4 (root + <= 3 nested Hierarchical / Fork levels) from Memory, Toll, Container, Compute leaves with fan-outs 1-4, possibly empty branches, >= 1 Compute; exhaustive core: every shape with <= 4 nodes through the Spec and <= 5 nodes through _flatten (thorough: 5 and 6); 1000 / 20000 seeded random trees with <= 16 leaves. Array nodes are outside the property's quantifier.",
+        technique="bounded run-time contract check of the real functions against two independent statements of the path (exhaustive small trees + seeded random trees)",
+        design_ref="DESIGN 3 C25, 8.6",
+    ),
+    "C28": dict(
+        level="exploration",
+        text="BOUNDED stand-in (never counted as proved): real Mappings objects are built around synthetic DataFrames generated from a ground-truth list (Einsum, component, tensor, action) -> per-row values with the model's real column naming; energy() for all 16 per_* flag combinations, actions() for all 8, latency() for all 4 and resource_usage() are compared key by key and row by row with group-by sums / maxima of that list; the per-row sum of every breakdown must be identical across flag combinations and equal the Total<SEP>energy / Total<SEP>latency columns when present; list_if_one_mapping both ways; calls in seeded random order with repeats; the DataFrame must be unchanged afterwards. A genuine defect found (a component named like a tensor lost its entries) was repaired in /repo (fix: 758370a). The column selection is string parsing of '<SEP>'-separated names over pandas; contracts for the aggregation loops are designed (DESIGN 3 C28) but not built.",
+        note="Bound: 1-3 Einsums (names may equal a tensor or component name), 2-5 components, 1-3 tensors per Einsum of 6 plus 'None' and leak entries, 5 actions, 1-4 rows, three index styles, int64 / float64 columns, shuffled column order, 0-3 reservation columns per memory, dyadic values <= 2**20 (exact sums); exhaustive core of 62 (thorough +225) tables, 80 / 1500 random tables. Outside the family: tables without any energy or latency breakdown, negative reservations.",
+        technique="bounded run-time contract check of the real methods against group-by sums of a ground-truth list",
+        design_ref="DESIGN 3 C28, 8.6",
+    ),
+    "C21": dict(
+        level="proof",
+        text="Deductive: _get_parsable_field_order (whole function, five loops with invariants, termination variant) is proved for every list of (field, value, validator) triples with distinct names and every pre-given order: the result keeps the given order as a prefix, contains every field, contains no field twice, and places every field after all fields whose names occur as whole words in its non-literal string value (exactly the code's notion of dependency: re.findall(r'\\b'+re.escape(name)+r'\\b', value), abstract); hence no value is returned when the dependencies contain a cycle (no order can satisfy the postcondition) and, the loop terminating, EvaluationError is raised, which is proved to happen only when every remaining entry still waits for an unordered dependency. The evaluation loop of Evalable._eval_expressions_final (slice, both the setattr and the item mode) is proved to evaluate the names in that order, each over the symbol table in which all earlier names are bound to their evaluated values (a recursively defined table sequence), to bind the result under the name (so an inner definition shadows an outer one of the same name) and to store it in the object. EvalableModel/EvalableDict/EvalableList._eval_expressions are proved to hand a COPY of the caller's symbol table to that loop (ownership obligation: the caller's table is never mutated, so names of one object do not leak to its siblings or parents) and, for lists, an order that lists every index. BOUNDED, not proved: how Spec / Arch / Component plumb the tables through the nesting levels (spec variables -> arch variables -> component attributes) -- random definition DAGs and cycles at six nesting levels through the real Spec API.",
+        note=_TB + "re.findall / re.escape / typing.get_origin / is_literal_string / eval_field / get_validator are assumed pure functions of their arguments (eval_field does not modify the table it is given); an object's attribute namespace is a finite map; post_calls == () in the loop contract; _eval_expressions_final as a whole is an assumed contract at its three call sites (its loop is verified as slices); pydantic model_copy / EvalableDict(...) / EvalableList(...) make new containers with the same content; field names of one object are distinct.",
+        technique="contract-based deductive verification (ast->z3 VCs, loop invariants, ghost index function, recursively defined table sequence, ownership obligations), bounded run-time cross-check through the real Spec API",
+        design_ref="DESIGN 3 C21, 8.6",
     ),
     "C22": dict(
         level="proof",
